@@ -253,6 +253,12 @@ func (w *worker) runSel(c *selCase, raw []byte) {
 				w.viol(primary(P, "C01", "C18"), "parse-failed", text, before, fmt.Sprintf("Parse of a rendered sentence: err=%v panic=%v", pr.Err, pr.Panic), kinds, raw)
 				return
 			}
+			if mi == 1 {
+				// in this pass the parsed function has a past: it was used on ANOTHER document first
+				safeCall(pr.F, c.Doc.variant(w.n%2).ToGo(m))
+				log.calls = nil
+				w.count("parsed-function-used-before-on-another-document", 1)
+			}
 			probed := ""
 			if P["C04"] {
 				// the document of the previous call of this process must still be what it was
